@@ -1,9 +1,11 @@
 #!/bin/bash
-# usage: seedreg.sh [seed ids...]     regression over the seeded changes: every seed must still be reported by the
-# checks recorded in its meta.json (caught_by).  Prints MISS lines for pairs that no longer fire.  4 seeds in parallel.
+# usage: [SEEDS="1 2 3"] seedreg.sh [seed ids...]     regression over the seeded changes: every seed must still be
+# reported by the checks recorded in its meta.json (caught_by), at every VERIF_SEED in $SEEDS.  Prints one line per
+# (seed, check, VERIF_SEED): ok / MISS.  4 in parallel.
 cd /verif
 ids="$@"; [ -z "$ids" ] && ids=$(ls seeded)
+for vs in ${SEEDS:-1}; do
 for s in $ids; do
   c=$(python3 -c "import json;print(' '.join(json.load(open('seeded/$s/meta.json'))['caught_by']))")
-  echo "$s $c"
-done | xargs -P 4 -L 1 tools/seedcheck.sh 2>&1 | awk '{ if ($0 ~ /VIOLATION property=/) print "ok   " $1, $2; else print "MISS " $0 }'
+  echo "$vs $s $c"
+done; done | xargs -P 4 -L 1 sh -c 'vs=$0; VERIF_SEED=$vs tools/seedcheck.sh "$@" 2>&1 | sed "s/^/seed=$vs /"' | awk '{ if ($0 ~ /VIOLATION property=/) print "ok   " $1, $2, $3; else print "MISS " $0 }'
